@@ -91,6 +91,17 @@ class C03(core.Check):
         self.vocab = M.Vocab(os.path.join(core.REPO, "mappyfile", "schemas"))
 
     # ------------------------------------------------------------ shadow generation
+    @staticmethod
+    def list_len(r, small):
+        """length of a repeated / pair list: usually a few, now and then long (a digitised polygon, a long dash
+        pattern), never a round number only"""
+        c = r.random()
+        if c < 0.8:
+            return r.randint(1, small)
+        if c < 0.9:
+            return r.randint(small + 1, 12)
+        return r.randint(13, 70)
+
     def gen_attr(self, r, typ, key):
         kinds = [k for k in self.vocab.kinds_for(typ, key) if not (k == "regex" and key not in ("expression", "filter", "text"))]
         if not kinds:
@@ -129,7 +140,7 @@ class C03(core.Check):
             extras.append(["metadata", ["kv", {"type": "metadata", "items": [[f"key{i}", ["attr", None, r.choice(M.WORDS)]] for i in range(r.randint(0, 3))]}]])
         if typ == "layer":
             if r.random() < 0.3:
-                extras.append(["processing", ["repeated", [r.choice(["BANDS=1,2,3", "SCALE=0,255", "CLOSE_CONNECTION=DEFER"]) for _ in range(r.randint(1, 3))]]])
+                extras.append(["processing", ["repeated", [r.choice(["BANDS=1,2,3", "SCALE=0,255", "CLOSE_CONNECTION=DEFER"]) for _ in range(self.list_len(r, 3))]]])
             if r.random() < 0.25:
                 extras.append(["projection", ["projection", r.choice(["AUTO", ["init=epsg:4326"], ["proj=utm", "zone=12", "datum=WGS84"]])]])
         if typ == "map":
@@ -138,11 +149,11 @@ class C03(core.Check):
             if r.random() < 0.2:
                 extras.append(["projection", ["projection", r.choice(["AUTO", ["init=epsg:3857"]])]])
         if typ == "style" and r.random() < 0.25:
-            extras.append(["pattern", ["pattern", [[r.randint(1, 9), r.randint(1, 9)] for _ in range(r.randint(1, 3))]]])
+            extras.append(["pattern", ["pattern", [[r.randint(1, 9), r.randint(1, 9)] for _ in range(self.list_len(r, 3))]]])
         if typ == "feature" and r.random() < 0.4:
-            extras.append(["points", ["multipoints", [[[r.randint(0, 50), r.choice([1, 2.5, 10])] for _ in range(r.randint(1, 3))] for _ in range(2)]]])
+            extras.append(["points", ["multipoints", [[[r.randint(0, 50), r.choice([1, 2.5, 10])] for _ in range(self.list_len(r, 3))] for _ in range(2)]]])
         elif typ == "feature" or (typ == "symbol" and r.random() < 0.4):
-            extras.append(["points", ["points", [[r.randint(0, 50), r.choice([1, 2.5, 10])] for _ in range(r.randint(1, 4))]]])
+            extras.append(["points", ["points", [[r.randint(0, 50), r.choice([1, 2.5, 10])] for _ in range(self.list_len(r, 4))]]])
         if typ == "outputformat" and r.random() < 0.5:
             extras.append(["formatoption", ["repeated", [r.choice(["GAMMA=0.75", "QUALITY=80"]) for _ in range(r.randint(1, 2))]]])
         if depth < 3:
